@@ -70,6 +70,11 @@ claimed = {
    technique='stateless model checking of the real reactive primitives under a controlled scheduler (preemption-bounded DFS with state cache; thorough: all interleavings where the cache completes)',
    text='8 scenarios on reactive Variable, Event and Set: two or three concurrent writers (Set/Compute/Add/Apply/Replace/Delete/Trigger) with a subscriber present from the start and a subscriber that subscribes (with/without zero-value trigger) and unsubscribes concurrently; callbacks yield so overlapping executions are possible. Every interleaving with <= 2 (thorough 3) preemptions is executed. Oracle per subscription: the first callback starts from the zero value, each prev equals the preceding new, last new == final Get, folding the reported set mutations == final contents, callbacks of one subscription never overlap, none starts after its unsubscribe returned, event handlers run exactly once, no deadlock.',
    note='Trusted: shim fidelity; fold tolerates an element reported as added although already present (Replace). The reactive Set.Replace diff defect of the design phase is repaired by the ds.Set.Replace fix (C11).', ref='2 C13'),
+
+ 'C14': dict(cat='model_checking', engine='S',
+   technique='stateless model checking of the real derived reactive values under a controlled scheduler (preemption- or delay-bounded DFS with state cache), convergence oracle evaluated at quiescence',
+   text='13 scenarios: DerivedVariable2/3 with writers on every input, InheritFrom, DerivedSet over two sources with Add/Delete/Replace and with a source being unsubscribed, SubtractReactive, Counter over two inputs (condition false and true for the zero value, Monitor racing with writes), SortedSet (adds vs weight changes; Delete vs weight change), WaitGroup (Add/Done/re-Add; never-empty), EvictionState (EvictionEvent/OnTrigger vs Evict). Every interleaving with <= 2 (thorough 3) deviations is executed; when nothing is enabled any more the derived value must equal its defining function of the current inputs (sorted order, heaviest/lightest, trigger iff last pending element done, exactly the events of slots <= last evicted fired); deadlock is a violation.',
+   note='Trusted: shim fidelity; convergence judged at quiescence only. One genuine defect recorded in known_findings.json (SortedSet Delete vs weight change lock inversion).', ref='2 C14'),
 }
 na_reason = 'check not built yet in this round (engine exists; see DESIGN.md section 9 for the order of work)'
 checks = []
